@@ -69,7 +69,11 @@ def quotedLoop : Nat → Bytes → Bytes → Option Bytes
           | 0x5C :: 0x75 :: v'' =>
             (match Json.hex4 v'' with
              | none => none
-             | some (r2, v3) => cont v3 (acc ++ encodeRune (Json.utf16Decode r r2)))
+             | some (r2, v3) =>
+               -- FX28: an escape pair that is not a high surrogate followed by a low one is rejected (it used to
+               -- decode to U+FFFD and swallow the second escape)
+               if Json.utf16Decode r r2 = 0xFFFD then none
+               else cont v3 (acc ++ encodeRune (Json.utf16Decode r r2)))
           | _ => none
         else cont v' (acc ++ encodeRune r)
     else none
